@@ -642,6 +642,9 @@ func idChain(keys, vals []string, p string) ([]string, bool) {
 			return nil, false
 		}
 		p = path.Join(append([]string{exp}, parts[3:]...)...)
+		if p == "/config" {
+			p += "/"
+		}
 		chain = append(chain, p)
 	}
 }
@@ -697,6 +700,11 @@ func (c *acase) inDomain() string {
 	if !distinct(c.pats) || !distinct(c.idxKeys) {
 		return "bad-op"
 	}
+	for _, v := range c.idxVals {
+		if !safeBytes(v) {
+			return "bad-op" // rewritten paths stay in the mux's unescaped alphabet
+		}
+	}
 	if !alphaOnly(c.method) {
 		return "bad-op"
 	}
@@ -706,14 +714,6 @@ func (c *acase) inDomain() string {
 	chain, ok := idChain(c.idxKeys, c.idxVals, c.path)
 	if !ok {
 		return "too-many-redirects"
-	}
-	if c.method == "CONNECT" {
-		// the mux does not canonicalise CONNECT requests; unclean paths are outside the modelled mux
-		for _, cp := range chain {
-			if !isCleanPath(cp) {
-				return "bad-op"
-			}
-		}
 	}
 	c.mayStop = c.method == "POST" && contains(chain, "/stop")
 	return ""
